@@ -52,6 +52,8 @@ impl Offset {
 
     /// Resolves the offset to seconds from UTC
     pub fn resolve(self) -> i32 {
+        #[cfg(feature = "verif")]
+        use crate::verif::fs;
         match self {
             Self::Fixed(offset) => offset,
             Self::Local => {
